@@ -4,6 +4,17 @@
 #endif
 
 
+const uint64_t *g_sxV, *g_sxP;   /* ghost traces of the positional value (contracts/sx.h) */
+
+/* the traces are arbitrary in the proof (the contract quantifies over them);
+ * the native replay does not evaluate the quantified clause and checks the
+ * value against spec_sx_value() instead */
+#define SX_TRACES() \
+  uint64_t *trV = malloc((SX_DMAX + 1) * sizeof(uint64_t)); \
+  uint64_t *trP = malloc((SX_DMAX + 1) * sizeof(uint64_t)); \
+  ASSUME(trV != NULL && trP != NULL); \
+  g_sxV = trV; g_sxP = trP;
+
 /* base target of the static-state invariants: a plain harness (no dfcc), the
  * statics have the values of their initialisers */
 void h_static_tables(void)
@@ -97,5 +108,22 @@ void h_parse_symbol(void)
   ASSUME(in_i < in_n);
   size_t pos = in_i;
   parse_symbol((const char *)in_s, in_n, &pos);
+  VERIF_CANARY();
+}
+
+void h_parse_integer_(void)
+{
+  SX_INPUT()
+  IN(int, in_hex)
+  ASSUME(in_i < in_n);
+  SX_TRACES()
+  size_t pos = in_i;
+  struct sx_node *r = parse_integer_((const char *)in_s, in_n, &pos, in_hex ? 2u : 0u,
+                                     in_hex ? isxdigit : isdigit, in_hex ? 16u : 10u);
+#if VERIF_IS_NATIVE
+  if (r != NULL)
+    CHECK(r->data.u64 == spec_sx_value((const char *)in_s, in_i + (in_hex ? 2u : 0u), pos, in_hex ? 16u : 10u),
+          "value == positional value (most significant digit first) modulo 2^64");
+#endif
   VERIF_CANARY();
 }
